@@ -483,8 +483,8 @@ func (f *Formatter) renderInlineChildren(n *html.Node) string {
 }
 
 // escapeText escapes HTML-significant characters (&, <, >) in text content.
-// Content inside {{ }} template expressions is preserved as-is to avoid
-// breaking template syntax like {{ a < b }}.
+// Content inside {{ }} template expressions is preserved to avoid breaking
+// template syntax like {{ a < b }} (see writeExpression).
 func escapeText(s string) string {
 	var b strings.Builder
 	b.Grow(len(s))
@@ -493,7 +493,7 @@ func escapeText(s string) string {
 		if i+1 < len(s) && s[i] == '{' && s[i+1] == '{' {
 			end := strings.Index(s[i+2:], "}}")
 			if end != -1 {
-				b.WriteString(s[i : i+2+end+2])
+				writeExpression(&b, s[i:i+2+end+2])
 				i += 2 + end + 2
 				continue
 			}
@@ -511,6 +511,32 @@ func escapeText(s string) string {
 		i++
 	}
 	return b.String()
+}
+
+// writeExpression writes a {{ }} expression found in text content. The expression is
+// kept as it is, so that {{ a < b }} and {{ a && b }} stay readable, except where an
+// HTML parser would not read the characters back as text: a '<' that opens a tag, an
+// end tag or a comment, and a '&' that may open a character reference.
+func writeExpression(b *strings.Builder, expr string) {
+	for i := 0; i < len(expr); i++ {
+		c := expr[i]
+		var next byte
+		if i+1 < len(expr) {
+			next = expr[i+1]
+		}
+		switch {
+		case c == '<' && (isASCIILetter(next) || next == '/' || next == '!' || next == '?'):
+			b.WriteString("&lt;")
+		case c == '&' && (isASCIILetter(next) || next == '#' || ('0' <= next && next <= '9')):
+			b.WriteString("&amp;")
+		default:
+			b.WriteByte(c)
+		}
+	}
+}
+
+func isASCIILetter(c byte) bool {
+	return ('a' <= c && c <= 'z') || ('A' <= c && c <= 'Z')
 }
 
 // trimRawContent trims leading and trailing blank lines from raw content
